@@ -245,6 +245,22 @@ def copyFrom (s : AState) (o : AState) : Option (Res AState) :=
   | some s2 => some { st := s2, allocs := a, frees := f }
   | none => none
 
+/-- `append(*this)`: `valuesSize = size(); reserve(size + valuesSize);` and only then `src = values._begin.item`,
+    i.e. the elements are read from the (possibly new) storage of the array itself -/
+def appendSelf (s : AState) : Option (Res AState) := s.appendAll s.elems
+
+/-- `append(a[i])`: `reserve(size + 1, &value)` follows the reference into the new storage (`_begin.item + index`) -/
+def appendRef (s : AState) (i : Nat) : Option (Res AState) :=
+  match s.elems[i]? with
+  | some x => s.append x
+  | none => none
+
+/-- `resize(n, a[i])`: the fill value is read through the reference that `reserve(size, &value)` returns -/
+def resizeRef (s : AState) (n i : Nat) : Option (Res AState) :=
+  match s.elems[i]? with
+  | some x => s.resize n x
+  | none => none
+
 /-- `~Array()`: one `delete[]` if storage exists -/
 def dtorFrees (s : AState) : Nat := if s.data.isSome then 1 else 0
 
@@ -282,6 +298,10 @@ inductive Op where
   | aremoveFront (v : Nat) | aremoveBack (v : Nat)
   | aclear (v : Nat) | aswap (v : Nat) | afind (v : Nat) (x : Int)
   | aget (v : Nat) (i : Nat) | afront (v : Nat) | aback (v : Nat) | aeq (v : Nat) (w : Nat)
+  -- arguments that are the container itself or a reference into it
+  | lappendself (v : Nat) | lprependself (v : Nat) | linsertself (v : Nat) (pos : Nat) | lassignself (v : Nat)
+  | aappendself (v : Nat) | aappendref (v : Nat) (i : Nat) | aresizeref (v : Nat) (n : Nat) (i : Nat)
+  | aassignself (v : Nat)
 
 namespace State
 
@@ -386,6 +406,17 @@ def step (s : State) (op : Op) : Option (Res State) :=
   | .aget v i => if ok v then liftA s v ((s.getA v).get i) else none
   | .afront v => if ok v then liftA s v (s.getA v).front else none
   | .aback v => if ok v then liftA s v (s.getA v).back else none
+  | .lappendself v =>
+    -- `insert(_end, *this)`: the walk over the original items skips the copies (`if(i == result.item) i = pos.item`)
+    if ok v then liftL s v (((s.getL v).insertList (s.getL v).size (s.getL v).vals).map ({ · with ret := none })) else none
+  | .lprependself v =>
+    if ok v then liftL s v (((s.getL v).insertList 0 (s.getL v).vals).map ({ · with ret := none })) else none
+  | .linsertself v pos => if ok v then liftL s v ((s.getL v).insertList pos (s.getL v).vals) else none
+  | .lassignself v => if ok v then some { st := s } else none                 -- `if(this == &other) return *this;`
+  | .aappendself v => if ok v then liftA s v (s.getA v).appendSelf else none
+  | .aappendref v i => if ok v then liftA s v ((s.getA v).appendRef i) else none
+  | .aresizeref v n i => if ok v then liftA s v ((s.getA v).resizeRef n i) else none
+  | .aassignself v => if ok v then some { st := s } else none                 -- `if(this == &other) return *this;`
   | .aeq v w =>
     -- `operator==`: `if(size() != other.size()) return false;` then element-wise comparison
     if ok v ∧ ok w then
